@@ -9,7 +9,15 @@
    depth-first search; at the end of the events the engine must be able to leave the loop (ImplAccept.acc_finish) with the observed
    result / wait-for graph / cycle, and the observed epoch, deps, dbrow and dbepoch lines must equal the model state's.
    Only enabled_gen produces successor states (ImplGenProofs.enabled_gen_sound: each is an mstep_gen); the glue around it
-   (scenario interpretation, acc_begin / acc_finish / irestart / dump_touch, the printing of values) is trusted. *)
+   (scenario interpretation, acc_begin / acc_finish / irestart / dump_touch, the printing of values) is trusted.
+   A `complete k v` line is the step GFinish k (enabled whenever k is Computing with a value pending, i.e. at any point after `avail k`);
+   the value is the model's (task_value), so an observed value that differs is an event no step produces.
+   Bounds: per build at most VERIF_ACC_BUDGET (default 400000) search nodes, then the build is rejected as SEARCH-BUDGET-EXHAUSTED
+   (inconclusive); at most 4000 consecutive steps without an event on a path; every (events consumed, state) pair is expanded once.
+   Three reductions keep rejections cheap (each explained where it is defined; none can make the search accept more): the visited key
+   ignores the order inside queues, a successor whose recorded dependency lists are not prefixes of the observed `deps` lines is dropped,
+   and two kinds of silent steps are taken eagerly.  A build the reduced search rejects is searched again WITHOUT the reductions
+   (VERIF_ACC_BUDGET2, default 60000 nodes): if that finds a run the build is accepted and counted in reduction_missed. *)
 let read_lines path = let ic = open_in path in let rec go acc = match input_line ic with l -> go (l :: acc) | exception End_of_file -> close_in ic; List.rev acc in go []
 let ints s = if s = "" then [] else List.filter_map (fun x -> if x = "" then None else Some (n_of_int (int_of_string x))) (String.split_on_char ',' s)
 let vstr = function None -> "EMPTY" | Some (p, s) -> dec_of_n p ^ "." ^ dec_of_n s
@@ -147,7 +155,7 @@ let order_candidates (phase : int) (cands : (glabel * istate) list) : (glabel * 
       ((q - phase + 5) mod 5, (if p = 0 then 0 else if p = qlen.(q) - 1 then 1 else 1 + p)) in
   List.stable_sort (fun a b -> compare (rank a) (rank b)) cands
 
-type search_stats = { mutable nodes : int; mutable steps : int; mutable silent : int; mutable deepest : int; mutable expected : string list;
+type search_stats = { mutable nodes : int; mutable steps : int; mutable deepest : int; mutable expected : string list;
                       mutable end_mismatch : string option; mutable exhausted : bool }
 
 exception Found of istate * (glabel list)
@@ -220,7 +228,7 @@ let silent_cap = 4000            (* consecutive steps without an event on one pa
 let search_build (enabled : istate -> (glabel * istate) list) (usedb : bool) (root : n) (budget : int) (s0 : istate) (ob : obuild)
   : (istate * glabel list) option * search_stats =
   let n = Array.length ob.ob_events in
-  let st = { nodes = 0; steps = 0; silent = 0; deepest = 0; expected = []; end_mismatch = None; exhausted = false } in
+  let st = { nodes = 0; steps = 0; deepest = 0; expected = []; end_mismatch = None; exhausted = false } in
   let visited : (int * string, unit) Hashtbl.t = Hashtbl.create 1024 in
   let note consumed txt =
     if consumed = st.deepest && List.length st.expected < 6 && not (List.mem txt st.expected) then st.expected <- st.expected @ [txt] in
